@@ -12,6 +12,7 @@ def run(ctx):
     L.flw16_offsets_count_placed_rows(ctx)
     L.lck1_flush_critical_section(ctx, with_reset=False)
     O.opt1_shared_optional_payload(ctx)
+    O.flw7_catalogue_lookups_on_query_path(ctx)
     return ctx.finish(
         'Static lock analysis over compiler MIR (guard birth/transfer/death, must-hold sets per '
         'program point): the snapshot reads buffer, frozen buffer and partition map under all '
